@@ -14,7 +14,7 @@ for pid, d in sorted(M.CHECKS.items()):
         "evidence_file": f"/verif/evidence/{pid}.json",
         "replay_cmd_template": "./check replay {path}",
         "engine": "pyvc+bounded",
-        "level_claimed": {"category": d["category"], "text": d["text"], "design_ref": d.get("design_ref", "DESIGN.md section 7")},
+        "level_claimed": {"category": d["category"], "text": d["text"], "design_ref": d.get("design_ref", "DESIGN.md section 8")},
         "level_note": d["note"],
         "technique": d["technique"],
     })
